@@ -369,6 +369,7 @@ fn main() {
         "evaluations": out.evaluations,
         "nontrivial": out.nontrivial,
         "distinct_local": out.hashes.len(),
+        "hash_cap_hit": out.hashes.len() >= out.hash_cap,
         "obs": out.obs,
         "sig_counts": out.sig_counts,
         "violations": viols,
